@@ -1,0 +1,332 @@
+//go:build verif
+
+package staking
+
+// Contracts for the deductive checker in /verif (comment-only; compiled only with -tags verif).
+// Lib specs: /verif/specs/c04/*.spec (abstract EVM addresses, SDK message validation, message servers, authz keeper).
+
+/*@
+specfunc bigval(p *math/big.Int) int = ite(p == nil, 0, *p)
+
+// ------------------------------------------------------------------ C16: ABI argument decoding (S1)
+func checkDelegationUndelegationArgs
+    let ok = len(args) == 3 && isdyn(args[0], Address) && dyn(args[0], Address) != zero_EvmAddr && isdyn(args[1], string) && isdyn(args[2], *BigInt)
+    ensures err_iff: (result.3 == nil) == ok
+    ensures decoded: result.3 == nil ==> result.0 == dyn(args[0], Address) && result.1 == dyn(args[1], string) && result.2 == dyn(args[2], *BigInt)
+
+// (delegator address, validator string, amount) -> MsgDelegate{bech32(delegator), validator, Coin{bond denom, amount}};
+// refused exactly on wrong arity / dynamic type / zero delegator, or when the SDK's own ValidateBasic refuses the message
+func NewMsgDelegate
+    let ok = len(args) == 3 && isdyn(args[0], Address) && dyn(args[0], Address) != zero_EvmAddr && isdyn(args[1], string) && isdyn(args[2], *BigInt)
+    let amt = bigval(dyn(args[2], *BigInt))
+    ensures err_iff: (result.2 == nil) == (ok && val_bech_ok(dyn(args[1], string)) && coin_valid(denom, amt) && amt > 0)
+    ensures msg: result.2 == nil ==> result.0 != nil && fresh(result.0)
+            && result.0.DelegatorAddress == bech_of(dyn(args[0], Address)) && result.0.ValidatorAddress == dyn(args[1], string)
+            && result.0.Amount.Denom == denom && result.0.Amount.Amount == amt
+    ensures who: result.2 == nil ==> result.1 == dyn(args[0], Address) && result.1 != zero_EvmAddr
+    ensures refused: result.2 != nil ==> result.0 == nil
+
+func NewMsgUndelegate
+    let ok = len(args) == 3 && isdyn(args[0], Address) && dyn(args[0], Address) != zero_EvmAddr && isdyn(args[1], string) && isdyn(args[2], *BigInt)
+    let amt = bigval(dyn(args[2], *BigInt))
+    ensures err_iff: (result.2 == nil) == (ok && val_bech_ok(dyn(args[1], string)) && coin_valid(denom, amt) && amt > 0)
+    ensures msg: result.2 == nil ==> result.0 != nil && fresh(result.0)
+            && result.0.DelegatorAddress == bech_of(dyn(args[0], Address)) && result.0.ValidatorAddress == dyn(args[1], string)
+            && result.0.Amount.Denom == denom && result.0.Amount.Amount == amt
+    ensures who: result.2 == nil ==> result.1 == dyn(args[0], Address) && result.1 != zero_EvmAddr
+    ensures refused: result.2 != nil ==> result.0 == nil
+
+func NewMsgRedelegate
+    let ok = len(args) == 4 && isdyn(args[0], Address) && dyn(args[0], Address) != zero_EvmAddr && isdyn(args[1], string) && isdyn(args[2], string) && isdyn(args[3], *BigInt)
+    let amt = bigval(dyn(args[3], *BigInt))
+    ensures err_iff: (result.2 == nil) == (ok && val_bech_ok(dyn(args[1], string)) && val_bech_ok(dyn(args[2], string)) && coin_valid(denom, amt) && amt > 0)
+    ensures msg: result.2 == nil ==> result.0 != nil && fresh(result.0)
+            && result.0.DelegatorAddress == bech_of(dyn(args[0], Address)) && result.0.ValidatorSrcAddress == dyn(args[1], string)
+            && result.0.ValidatorDstAddress == dyn(args[2], string) && result.0.Amount.Denom == denom && result.0.Amount.Amount == amt
+    ensures who: result.2 == nil ==> result.1 == dyn(args[0], Address) && result.1 != zero_EvmAddr
+    ensures refused: result.2 != nil ==> result.0 == nil
+
+// args come from abi.Arguments.Unpack: an int256/uint256 argument is never a nil *big.Int
+func NewMsgCancelUnbondingDelegation
+    requires abi_nonnil: len(args) == 4 && isdyn(args[3], *BigInt) ==> dyn(args[3], *BigInt) != nil
+    let ok = len(args) == 4 && isdyn(args[0], Address) && dyn(args[0], Address) != zero_EvmAddr && isdyn(args[1], string) && isdyn(args[2], *BigInt) && isdyn(args[3], *BigInt)
+    let amt = bigval(dyn(args[2], *BigInt))
+    let h = *dyn(args[3], *BigInt)
+    ensures msg: result.2 == nil ==> result.0 != nil && fresh(result.0)
+            && result.0.DelegatorAddress == bech_of(dyn(args[0], Address)) && result.0.ValidatorAddress == dyn(args[1], string)
+            && result.0.Amount.Denom == denom && result.0.Amount.Amount == amt
+    // the message names the creation height the caller passed (ABI type uint256)
+    ensures height: result.2 == nil ==> result.0.CreationHeight == h
+    ensures err_iff: (result.2 == nil) == (ok && val_bech_ok(dyn(args[1], string)) && coin_valid(denom, amt) && amt > 0 && h > 0)
+    // FINDING G1: both fail for h >= 2^63 (big.Int.Int64 wraps silently); they hold when the height fits an int64:
+    ensures height_fits64: result.2 == nil && 0 - 9223372036854775808 <= h && h <= 9223372036854775807 ==> result.0.CreationHeight == h
+    ensures err_iff_fits64: ok && 0 - 9223372036854775808 <= h && h <= 9223372036854775807 ==> (result.2 == nil) == (val_bech_ok(dyn(args[1], string)) && coin_valid(denom, amt) && amt > 0 && h > 0)
+    ensures err_decode: !ok ==> result.2 != nil
+    ensures who: result.2 == nil ==> result.1 == dyn(args[0], Address) && result.1 != zero_EvmAddr
+    ensures refused: result.2 != nil ==> result.0 == nil
+
+// createValidator: only the identity-relevant part of the message is characterised (delegator, self-delegation coin, validator
+// string, minimum self delegation); description, commission rates and public key go through SDK constructors left abstract.
+// args come from abi.Arguments.Unpack: the commission tuple holds non-nil *big.Int values.
+alias DescriptionT github.com/haqq-network/haqq/precompiles/staking.Description
+alias CommissionT github.com/haqq-network/haqq/precompiles/staking.Commission
+func NewMsgCreateValidator
+    requires abi_nonnil: len(args) == 7 && isdyn(args[1], CommissionT) ==> dyn(args[1], CommissionT).Rate != nil && dyn(args[1], CommissionT).MaxRate != nil && dyn(args[1], CommissionT).MaxChangeRate != nil
+    let ok = len(args) == 7 && isdyn(args[0], DescriptionT) && isdyn(args[1], CommissionT) && isdyn(args[2], *BigInt) && isdyn(args[3], Address) && dyn(args[3], Address) != zero_EvmAddr
+             && isdyn(args[4], string) && isdyn(args[5], string) && isdyn(args[6], *BigInt)
+    ensures err_decode: !ok ==> result.2 != nil
+    ensures msg: result.2 == nil ==> result.0 != nil && fresh(result.0) && createval_vb_ok(*result.0)
+            && result.0.DelegatorAddress == bech_of(dyn(args[3], Address)) && result.0.ValidatorAddress == dyn(args[4], string)
+            && result.0.Value.Denom == denom && result.0.Value.Amount == bigval(dyn(args[6], *BigInt)) && result.0.MinSelfDelegation == bigval(dyn(args[2], *BigInt))
+            && result.0.Description.Moniker == dyn(args[0], DescriptionT).Moniker && result.0.Description.Details == dyn(args[0], DescriptionT).Details
+    ensures who: result.2 == nil ==> result.1 == dyn(args[3], Address) && result.1 != zero_EvmAddr
+    ensures refused: result.2 != nil ==> result.0 == nil
+
+// ------------------------------------------------------------------ C04: grant bookkeeping (S3)
+alias SDB github.com/haqq-network/haqq/x/evm/statedb.StateDB
+// package-level message type URLs (immutable)
+const glob_staking_DelegateMsg string
+const glob_staking_UndelegateMsg string
+const glob_staking_RedelegateMsg string
+const glob_staking_CancelUnbondingDelegationMsg string
+
+func (Precompile).Logger
+    ensures true
+
+// event emission: writes an EVM log only - no effect on the Cosmos state, the grants or the balance mirror (frame proved)
+func (Precompile).Address
+    ensures true
+func (Precompile).createStakingTxTopics
+    requires three: topicsLen >= 3
+    ensures len: result.1 == nil ==> len(result.0) == topicsLen
+func (Precompile).EmitCreateValidatorEvent
+    requires msg: msg != nil && ctx_height(ctx) >= 0 && p.stakingKeeper.Keeper != nil
+    ensures true
+func (Precompile).EmitDelegateEvent
+    requires msg: msg != nil && ctx_height(ctx) >= 0 && p.stakingKeeper.Keeper != nil
+    ensures true
+func (Precompile).EmitUnbondEvent
+    requires msg: msg != nil && ctx_height(ctx) >= 0 && p.stakingKeeper.Keeper != nil
+    ensures true
+func (Precompile).EmitRedelegateEvent
+    requires msg: msg != nil && ctx_height(ctx) >= 0 && p.stakingKeeper.Keeper != nil
+    ensures true
+func (Precompile).EmitCancelUnbondingDelegationEvent
+    requires msg: msg != nil && ctx_height(ctx) >= 0 && p.stakingKeeper.Keeper != nil
+    ensures true
+
+// C04: the grant (granter -> grantee, messageType) is updated with exactly the response of StakeAuthorization.Accept:
+// success only if the message's validator passes the grant's list and a limited grant covers the amount; the stored limit
+// then drops by exactly the amount (grant deleted when used up), an unlimited grant stays unlimited.
+func (Precompile).UpdateStakingAuthorization
+    requires authz: stakeAuthz != nil
+    requires keyed: stake_url(stakeAuthz.AuthorizationType) == messageType
+    let key = gkey(addr_bytes(grantee), addr_bytes(granter), messageType)
+    let amt = StakeMsgAmount(msg)
+    let lim = old(stakeAuthz.MaxTokens.Amount)
+    let limited = old(stakeAuthz.MaxTokens) != nil
+    modifies g_kind, g_exp, g_limited, g_limit
+    call SaveGrant requires exact: gte == addr_bytes(grantee) && gtr == addr_bytes(granter) && exp == expiration && authorization == ret(Accept, 1, 0).Updated && !ret(Accept, 1, 0).Delete
+    call DeleteGrant requires exact: gte == addr_bytes(grantee) && gtr == addr_bytes(granter) && url == messageType && ret(Accept, 1, 0).Delete
+    ensures covered: result == nil ==> IsStakeMsg(msg) && val_allowed(old(stakeAuthz.Validators), StakeMsgValidator(msg)) && (limited ==> amt <= lim)
+    ensures reduced: result == nil && limited && amt != lim ==> g_kind == upd(old(g_kind), key, StakeTag()) && g_limited == upd(old(g_limited), key, true)
+            && g_limit == upd(old(g_limit), key, lim - amt) && g_exp == upd(old(g_exp), key, expiration)
+    ensures used_up: result == nil && limited && amt == lim ==> g_kind == upd(old(g_kind), key, 0) && g_limited == old(g_limited) && g_limit == old(g_limit) && g_exp == old(g_exp)
+    ensures unlimited: result == nil && !limited ==> g_kind == upd(old(g_kind), key, StakeTag()) && g_limited == upd(old(g_limited), key, false)
+            && g_limit == old(g_limit) && g_exp == upd(old(g_exp), key, expiration)
+
+// C04: allowance arithmetic. increaseAllowance needs a live StakeAuthorization grant (granter -> grantee) for msgURL; a limited grant
+// gets limit + amount, an unlimited one is left alone; the grant is saved for exactly (grantee, granter).
+func (Precompile).increaseAllowance
+    requires coin: coin != nil
+    let key = gkey(addr_bytes(grantee), addr_bytes(granter), msgURL)
+    modifies g_kind, g_exp, g_limited, g_limit
+    call SaveGrant requires who: gte == addr_bytes(grantee) && gtr == addr_bytes(granter)
+    ensures needs_grant: result == nil ==> old(GLive(g_kind, g_exp, key, ctx)) && old(g_kind[key]) == StakeTag()
+    ensures no_grant: !old(GLive(g_kind, g_exp, key, ctx)) || old(g_kind[key]) != StakeTag() ==> result != nil && g_kind == old(g_kind) && g_limit == old(g_limit) && g_limited == old(g_limited) && g_exp == old(g_exp)
+    ensures raised: result == nil && old(g_limited[key]) ==> g_limit == upd(old(g_limit), key, old(g_limit[key]) + coin.Amount)
+            && g_kind == upd(old(g_kind), key, StakeTag()) && g_limited == upd(old(g_limited), key, true) && g_exp == upd(old(g_exp), key, old(g_exp[key]))
+    ensures unlimited_noop: result == nil && !old(g_limited[key]) ==> g_kind == old(g_kind) && g_limit == old(g_limit) && g_limited == old(g_limited) && g_exp == old(g_exp)
+
+// decreaseAllowance: a limited grant gets limit - amount, refused (nothing changed) when amount > limit; unlimited: no-op
+func (Precompile).decreaseAllowance
+    requires coin: coin != nil && stakeAuthz != nil && (stakeAuthz.MaxTokens != nil ==> coin != stakeAuthz.MaxTokens)
+    let key = gkey(addr_bytes(grantee), addr_bytes(granter), stake_url(old(stakeAuthz.AuthorizationType)))
+    let lim = old(stakeAuthz.MaxTokens.Amount)
+    let limited = old(stakeAuthz.MaxTokens) != nil
+    modifies g_kind, g_exp, g_limited, g_limit, *stakeAuthz.MaxTokens
+    call SaveGrant requires who: gte == addr_bytes(grantee) && gtr == addr_bytes(granter)
+    ensures too_big: limited && coin.Amount > lim ==> result != nil && g_kind == old(g_kind) && g_limit == old(g_limit) && g_limited == old(g_limited) && g_exp == old(g_exp)
+    ensures lowered: result == nil && limited ==> coin.Amount <= lim && g_limit == upd(old(g_limit), key, lim - coin.Amount)
+            && g_kind == upd(old(g_kind), key, StakeTag()) && g_limited == upd(old(g_limited), key, true) && g_exp == upd(old(g_exp), key, expiration)
+    ensures unlimited_noop: !limited ==> result == nil && g_kind == old(g_kind) && g_limit == old(g_limit) && g_limited == old(g_limited) && g_exp == old(g_exp)
+
+// ------------------------------------------------------------------ C04 + C16: the transactions
+// Preconditions are facts of the only call site (Precompile.Run): contract and method are non-nil, the StateDB is the haqq
+// *statedb.StateDB, args come from abi.Arguments.Unpack, the keeper is the one built by NewKeeper, block heights are >= 0.
+// origin (transaction signer), caller (contract.CallerAddress) and the address named in args[0] are free symbolic addresses.
+
+func (Precompile).Delegate
+    requires wf: contract != nil && method != nil && isdyn(stateDB, *SDB) && dyn(stateDB, *SDB) != nil && p.stakingKeeper.Keeper != nil && ctx_height(ctx) >= 0
+    let caller = old(contract.CallerAddress)
+    let key = gkey(addr_bytes(caller), addr_bytes(origin), glob_staking_DelegateMsg)
+    let okargs = len(args) == 3 && isdyn(args[0], Address) && dyn(args[0], Address) != zero_EvmAddr && isdyn(args[1], string) && isdyn(args[2], *BigInt)
+    let del = dyn(args[0], Address)
+    let val = dyn(args[1], string)
+    let amt = bigval(dyn(args[2], *BigInt))
+    let denom = bond_denom(oldheap(*p.stakingKeeper.Keeper), ctx)
+    let decoded = okargs && val_bech_ok(val) && coin_valid(denom, amt) && amt > 0
+    modifies cstate, g_kind, g_exp, g_limited, g_limit, sdb_delta
+    // ---- C04 at the point of no return (the message server call)
+    call MsgServer.Delegate requires who: msg.DelegatorAddress == bech_of(origin) || msg.DelegatorAddress == bech_of(caller)
+    call MsgServer.Delegate requires named: msg.DelegatorAddress == bech_of(del) && msg.ValidatorAddress == val && msg.Amount.Denom == denom && msg.Amount.Amount == amt && goCtx == ctx_wrap(ctx)
+    call MsgServer.Delegate requires granted: caller != origin ==> GLive(g_kind, g_exp, key, ctx) && g_kind[key] == StakeTag() && (g_limited[key] ==> amt <= g_limit[key])
+    call MsgServer.Delegate requires untouched: g_kind == old(g_kind) && g_exp == old(g_exp) && g_limited == old(g_limited) && g_limit == old(g_limit) && cstate == old(cstate)
+    // FINDING G2: the grant's validator list is only consulted (StakeAuthorization.Accept) after the message has been executed
+    call MsgServer.Delegate requires validator_covered: caller != origin ==> val_allowed(stakeAuthz.Validators, val)
+    call UpdateStakingAuthorization requires exact: caller != origin && grantee == caller && granter == origin && messageType == glob_staking_DelegateMsg
+            && stakeAuthz == ret(CheckAuthzAndAllowanceForGranter, 1, 0) && expiration == ret(CheckAuthzAndAllowanceForGranter, 1, 1)
+            && isdyn(msg, *MsgDelegate) && dyn(msg, *MsgDelegate) == ret(NewMsgDelegate, 1, 0)
+    call Pack requires packs_true: len(args) == 1 && isdyn(args[0], bool) && dyn(args[0], bool)
+    // ---- C04 as a postcondition
+    ensures who: result.1 == nil ==> decoded && (del == origin || del == caller)
+    ensures granted: result.1 == nil && caller != origin ==> old(GLive(g_kind, g_exp, key, ctx)) && old(g_kind[key]) == StakeTag() && (old(g_limited[key]) ==> amt <= old(g_limit[key]))
+    ensures spent_part: result.1 == nil && caller != origin && old(g_limited[key]) && amt != old(g_limit[key]) ==> g_kind == upd(old(g_kind), key, StakeTag())
+            && g_limit == upd(old(g_limit), key, old(g_limit[key]) - amt) && g_limited == upd(old(g_limited), key, true)
+    ensures spent_all: result.1 == nil && caller != origin && old(g_limited[key]) && amt == old(g_limit[key]) ==> g_kind == upd(old(g_kind), key, 0) && g_limit == old(g_limit) && g_limited == old(g_limited)
+    ensures unlimited: result.1 == nil && caller != origin && !old(g_limited[key]) ==> g_kind == upd(old(g_kind), key, StakeTag()) && g_limited == upd(old(g_limited), key, false) && g_limit == old(g_limit)
+    ensures own_call: caller == origin ==> g_kind == old(g_kind) && g_exp == old(g_exp) && g_limited == old(g_limited) && g_limit == old(g_limit)
+    // ---- C16: the call is the native message (exactly one state-changing keeper call, then event and balance mirror)
+    ensures refused: !decoded || (del != origin && del != caller) ==> result.1 != nil && cstate == old(cstate) && sdb_delta == old(sdb_delta)
+    ensures native_fail: decoded && caller == origin && !delegate_ok(old(cstate), ctx_wrap(ctx), bech_of(del), val, denom, amt) ==> result.1 != nil
+    ensures native_ok: result.1 == nil ==> delegate_ok(old(cstate), ctx_wrap(ctx), bech_of(del), val, denom, amt)
+    ensures native_effect: result.1 == nil ==> cstate == delegate_post(old(cstate), ctx_wrap(ctx), bech_of(del), val, denom, amt)
+    // the EVM balance mirror is adjusted exactly when the calling contract itself is the delegator, by exactly the amount
+    ensures mirror: result.1 == nil ==> sdb_delta == ite(caller == del, upd(old(sdb_delta), caller, old(sdb_delta)[caller] - amt), old(sdb_delta))
+
+func (Precompile).Undelegate
+    requires wf: contract != nil && method != nil && isdyn(stateDB, *SDB) && dyn(stateDB, *SDB) != nil && p.stakingKeeper.Keeper != nil && ctx_height(ctx) >= 0
+    let caller = old(contract.CallerAddress)
+    let key = gkey(addr_bytes(caller), addr_bytes(origin), glob_staking_UndelegateMsg)
+    let okargs = len(args) == 3 && isdyn(args[0], Address) && dyn(args[0], Address) != zero_EvmAddr && isdyn(args[1], string) && isdyn(args[2], *BigInt)
+    let del = dyn(args[0], Address)
+    let val = dyn(args[1], string)
+    let amt = bigval(dyn(args[2], *BigInt))
+    let denom = bond_denom(oldheap(*p.stakingKeeper.Keeper), ctx)
+    let decoded = okargs && val_bech_ok(val) && coin_valid(denom, amt) && amt > 0
+    modifies cstate, g_kind, g_exp, g_limited, g_limit
+    // ---- C04 at the point of no return (the message server call)
+    call MsgServer.Undelegate requires who: msg.DelegatorAddress == bech_of(origin) || msg.DelegatorAddress == bech_of(caller)
+    call MsgServer.Undelegate requires named: msg.DelegatorAddress == bech_of(del) && msg.ValidatorAddress == val && msg.Amount.Denom == denom && msg.Amount.Amount == amt && goCtx == ctx_wrap(ctx)
+    call MsgServer.Undelegate requires granted: caller != origin ==> GLive(g_kind, g_exp, key, ctx) && g_kind[key] == StakeTag() && (g_limited[key] ==> amt <= g_limit[key])
+    call MsgServer.Undelegate requires untouched: g_kind == old(g_kind) && g_exp == old(g_exp) && g_limited == old(g_limited) && g_limit == old(g_limit) && cstate == old(cstate)
+    // FINDING G2: the grant's validator list is only consulted (StakeAuthorization.Accept) after the message has been executed
+    call MsgServer.Undelegate requires validator_covered: caller != origin ==> val_allowed(stakeAuthz.Validators, val)
+    call UpdateStakingAuthorization requires exact: caller != origin && grantee == caller && granter == origin && messageType == glob_staking_UndelegateMsg
+            && stakeAuthz == ret(CheckAuthzAndAllowanceForGranter, 1, 0) && expiration == ret(CheckAuthzAndAllowanceForGranter, 1, 1)
+            && isdyn(msg, *MsgUndelegate) && dyn(msg, *MsgUndelegate) == ret(NewMsgUndelegate, 1, 0)
+    call Pack requires packs_time: len(args) == 1 && isdyn(args[0], int64) && dyn(args[0], int64) == time_unix(ret(Undelegate, 1, 0).CompletionTime)
+    // ---- C04 as a postcondition
+    ensures who: result.1 == nil ==> decoded && (del == origin || del == caller)
+    ensures granted: result.1 == nil && caller != origin ==> old(GLive(g_kind, g_exp, key, ctx)) && old(g_kind[key]) == StakeTag() && (old(g_limited[key]) ==> amt <= old(g_limit[key]))
+    ensures spent_part: result.1 == nil && caller != origin && old(g_limited[key]) && amt != old(g_limit[key]) ==> g_kind == upd(old(g_kind), key, StakeTag())
+            && g_limit == upd(old(g_limit), key, old(g_limit[key]) - amt) && g_limited == upd(old(g_limited), key, true)
+    ensures spent_all: result.1 == nil && caller != origin && old(g_limited[key]) && amt == old(g_limit[key]) ==> g_kind == upd(old(g_kind), key, 0) && g_limit == old(g_limit) && g_limited == old(g_limited)
+    ensures unlimited: result.1 == nil && caller != origin && !old(g_limited[key]) ==> g_kind == upd(old(g_kind), key, StakeTag()) && g_limited == upd(old(g_limited), key, false) && g_limit == old(g_limit)
+    ensures own_call: caller == origin ==> g_kind == old(g_kind) && g_exp == old(g_exp) && g_limited == old(g_limited) && g_limit == old(g_limit)
+    // ---- C16: the call is the native message (exactly one state-changing keeper call, then event and balance mirror)
+    ensures refused: !decoded || (del != origin && del != caller) ==> result.1 != nil && cstate == old(cstate)
+    ensures native_fail: decoded && caller == origin && !undelegate_ok(old(cstate), ctx_wrap(ctx), bech_of(del), val, denom, amt) ==> result.1 != nil
+    ensures native_ok: result.1 == nil ==> undelegate_ok(old(cstate), ctx_wrap(ctx), bech_of(del), val, denom, amt)
+    ensures native_effect: result.1 == nil ==> cstate == undelegate_post(old(cstate), ctx_wrap(ctx), bech_of(del), val, denom, amt)
+
+func (Precompile).Redelegate
+    requires wf: contract != nil && method != nil && isdyn(stateDB, *SDB) && dyn(stateDB, *SDB) != nil && p.stakingKeeper.Keeper != nil && ctx_height(ctx) >= 0
+    let caller = old(contract.CallerAddress)
+    let key = gkey(addr_bytes(caller), addr_bytes(origin), glob_staking_RedelegateMsg)
+    let okargs = len(args) == 4 && isdyn(args[0], Address) && dyn(args[0], Address) != zero_EvmAddr && isdyn(args[1], string) && isdyn(args[2], string) && isdyn(args[3], *BigInt)
+    let del = dyn(args[0], Address)
+    let src = dyn(args[1], string)
+    let dst = dyn(args[2], string)
+    let amt = bigval(dyn(args[3], *BigInt))
+    let denom = bond_denom(oldheap(*p.stakingKeeper.Keeper), ctx)
+    let decoded = okargs && val_bech_ok(src) && val_bech_ok(dst) && coin_valid(denom, amt) && amt > 0
+    modifies cstate, g_kind, g_exp, g_limited, g_limit
+    // ---- C04 at the point of no return (the message server call)
+    call MsgServer.BeginRedelegate requires who: msg.DelegatorAddress == bech_of(origin) || msg.DelegatorAddress == bech_of(caller)
+    call MsgServer.BeginRedelegate requires named: msg.DelegatorAddress == bech_of(del) && msg.ValidatorSrcAddress == src && msg.ValidatorDstAddress == dst && msg.Amount.Denom == denom && msg.Amount.Amount == amt && goCtx == ctx_wrap(ctx)
+    call MsgServer.BeginRedelegate requires granted: caller != origin ==> GLive(g_kind, g_exp, key, ctx) && g_kind[key] == StakeTag() && (g_limited[key] ==> amt <= g_limit[key])
+    call MsgServer.BeginRedelegate requires untouched: g_kind == old(g_kind) && g_exp == old(g_exp) && g_limited == old(g_limited) && g_limit == old(g_limit) && cstate == old(cstate)
+    // FINDING G2: the grant's validator list is only consulted (StakeAuthorization.Accept) after the message has been executed
+    call MsgServer.BeginRedelegate requires validator_covered: caller != origin ==> val_allowed(stakeAuthz.Validators, dst)
+    call UpdateStakingAuthorization requires exact: caller != origin && grantee == caller && granter == origin && messageType == glob_staking_RedelegateMsg
+            && stakeAuthz == ret(CheckAuthzAndAllowanceForGranter, 1, 0) && expiration == ret(CheckAuthzAndAllowanceForGranter, 1, 1)
+            && isdyn(msg, *MsgBeginRedelegate) && dyn(msg, *MsgBeginRedelegate) == ret(NewMsgRedelegate, 1, 0)
+    call Pack requires packs_time: len(args) == 1 && isdyn(args[0], int64) && dyn(args[0], int64) == time_unix(ret(BeginRedelegate, 1, 0).CompletionTime)
+    // ---- C04 as a postcondition
+    ensures who: result.1 == nil ==> decoded && (del == origin || del == caller)
+    ensures granted: result.1 == nil && caller != origin ==> old(GLive(g_kind, g_exp, key, ctx)) && old(g_kind[key]) == StakeTag() && (old(g_limited[key]) ==> amt <= old(g_limit[key]))
+    ensures spent_part: result.1 == nil && caller != origin && old(g_limited[key]) && amt != old(g_limit[key]) ==> g_kind == upd(old(g_kind), key, StakeTag())
+            && g_limit == upd(old(g_limit), key, old(g_limit[key]) - amt) && g_limited == upd(old(g_limited), key, true)
+    ensures spent_all: result.1 == nil && caller != origin && old(g_limited[key]) && amt == old(g_limit[key]) ==> g_kind == upd(old(g_kind), key, 0) && g_limit == old(g_limit) && g_limited == old(g_limited)
+    ensures unlimited: result.1 == nil && caller != origin && !old(g_limited[key]) ==> g_kind == upd(old(g_kind), key, StakeTag()) && g_limited == upd(old(g_limited), key, false) && g_limit == old(g_limit)
+    ensures own_call: caller == origin ==> g_kind == old(g_kind) && g_exp == old(g_exp) && g_limited == old(g_limited) && g_limit == old(g_limit)
+    // ---- C16: the call is the native message (exactly one state-changing keeper call, then event and balance mirror)
+    ensures refused: !decoded || (del != origin && del != caller) ==> result.1 != nil && cstate == old(cstate)
+    ensures native_fail: decoded && caller == origin && !redelegate_ok(old(cstate), ctx_wrap(ctx), bech_of(del), src, dst, denom, amt) ==> result.1 != nil
+    ensures native_ok: result.1 == nil ==> redelegate_ok(old(cstate), ctx_wrap(ctx), bech_of(del), src, dst, denom, amt)
+    ensures native_effect: result.1 == nil ==> cstate == redelegate_post(old(cstate), ctx_wrap(ctx), bech_of(del), src, dst, denom, amt)
+
+func (Precompile).CancelUnbondingDelegation
+    requires wf: contract != nil && method != nil && isdyn(stateDB, *SDB) && dyn(stateDB, *SDB) != nil && p.stakingKeeper.Keeper != nil && ctx_height(ctx) >= 0
+    // args come from abi.Arguments.Unpack (no nil *big.Int). The creation height is restricted to int64 here: for larger values the
+    // decoder's own contract fails (finding G1) and must not be relied on
+    requires abi_nonnil: len(args) == 4 && isdyn(args[3], *BigInt) ==> dyn(args[3], *BigInt) != nil && 0 - 9223372036854775808 <= *dyn(args[3], *BigInt) && *dyn(args[3], *BigInt) <= 9223372036854775807
+    let caller = old(contract.CallerAddress)
+    let key = gkey(addr_bytes(caller), addr_bytes(origin), glob_staking_CancelUnbondingDelegationMsg)
+    let okargs = len(args) == 4 && isdyn(args[0], Address) && dyn(args[0], Address) != zero_EvmAddr && isdyn(args[1], string) && isdyn(args[2], *BigInt) && isdyn(args[3], *BigInt)
+    let del = dyn(args[0], Address)
+    let val = dyn(args[1], string)
+    let amt = bigval(dyn(args[2], *BigInt))
+    let h = old(*dyn(args[3], *BigInt))
+    let denom = bond_denom(oldheap(*p.stakingKeeper.Keeper), ctx)
+    let decoded = okargs && val_bech_ok(val) && coin_valid(denom, amt) && amt > 0 && h > 0
+    modifies cstate, g_kind, g_exp, g_limited, g_limit
+    // ---- C04 at the point of no return (the message server call)
+    call MsgServer.CancelUnbondingDelegation requires who: msg.DelegatorAddress == bech_of(origin) || msg.DelegatorAddress == bech_of(caller)
+    call MsgServer.CancelUnbondingDelegation requires named: msg.DelegatorAddress == bech_of(del) && msg.ValidatorAddress == val && msg.CreationHeight == h && msg.Amount.Denom == denom && msg.Amount.Amount == amt && goCtx == ctx_wrap(ctx)
+    call MsgServer.CancelUnbondingDelegation requires granted: caller != origin ==> GLive(g_kind, g_exp, key, ctx) && g_kind[key] == StakeTag() && (g_limited[key] ==> amt <= g_limit[key])
+    call MsgServer.CancelUnbondingDelegation requires untouched: g_kind == old(g_kind) && g_exp == old(g_exp) && g_limited == old(g_limited) && g_limit == old(g_limit) && cstate == old(cstate)
+    // FINDING G2: the grant's validator list is only consulted (StakeAuthorization.Accept) after the message has been executed
+    call MsgServer.CancelUnbondingDelegation requires validator_covered: caller != origin ==> val_allowed(stakeAuthz.Validators, val)
+    call UpdateStakingAuthorization requires exact: caller != origin && grantee == caller && granter == origin && messageType == glob_staking_CancelUnbondingDelegationMsg
+            && stakeAuthz == ret(CheckAuthzAndAllowanceForGranter, 1, 0) && expiration == ret(CheckAuthzAndAllowanceForGranter, 1, 1)
+            && isdyn(msg, *MsgCancelUnbondingDelegation) && dyn(msg, *MsgCancelUnbondingDelegation) == ret(NewMsgCancelUnbondingDelegation, 1, 0)
+    call Pack requires packs_true: len(args) == 1 && isdyn(args[0], bool) && dyn(args[0], bool)
+    // ---- C04 as a postcondition
+    ensures who: result.1 == nil ==> decoded && (del == origin || del == caller)
+    ensures granted: result.1 == nil && caller != origin ==> old(GLive(g_kind, g_exp, key, ctx)) && old(g_kind[key]) == StakeTag() && (old(g_limited[key]) ==> amt <= old(g_limit[key]))
+    ensures spent_part: result.1 == nil && caller != origin && old(g_limited[key]) && amt != old(g_limit[key]) ==> g_kind == upd(old(g_kind), key, StakeTag())
+            && g_limit == upd(old(g_limit), key, old(g_limit[key]) - amt) && g_limited == upd(old(g_limited), key, true)
+    ensures spent_all: result.1 == nil && caller != origin && old(g_limited[key]) && amt == old(g_limit[key]) ==> g_kind == upd(old(g_kind), key, 0) && g_limit == old(g_limit) && g_limited == old(g_limited)
+    ensures unlimited: result.1 == nil && caller != origin && !old(g_limited[key]) ==> g_kind == upd(old(g_kind), key, StakeTag()) && g_limited == upd(old(g_limited), key, false) && g_limit == old(g_limit)
+    ensures own_call: caller == origin ==> g_kind == old(g_kind) && g_exp == old(g_exp) && g_limited == old(g_limited) && g_limit == old(g_limit)
+    // ---- C16: the call is the native message (exactly one state-changing keeper call, then event and balance mirror)
+    ensures refused: !decoded || (del != origin && del != caller) ==> result.1 != nil && cstate == old(cstate)
+    ensures native_fail: decoded && caller == origin && !cancelunb_ok(old(cstate), ctx_wrap(ctx), bech_of(del), val, denom, amt, h) ==> result.1 != nil
+    ensures native_ok: result.1 == nil ==> cancelunb_ok(old(cstate), ctx_wrap(ctx), bech_of(del), val, denom, amt, h)
+    ensures native_effect: result.1 == nil ==> cstate == cancelunb_post(old(cstate), ctx_wrap(ctx), bech_of(del), val, denom, amt, h)
+
+// C04: a validator is created (and its self-delegation debited) only for the transaction signer - the calling contract cannot
+// name itself or anyone else. No grant is involved.
+func (Precompile).CreateValidator
+    requires wf: method != nil && p.stakingKeeper.Keeper != nil && ctx_height(ctx) >= 0
+    requires abi_nonnil: len(args) == 7 && isdyn(args[1], CommissionT) ==> dyn(args[1], CommissionT).Rate != nil && dyn(args[1], CommissionT).MaxRate != nil && dyn(args[1], CommissionT).MaxChangeRate != nil
+    let del = dyn(args[3], Address)
+    modifies cstate
+    call MsgServer.CreateValidator requires who: msg.DelegatorAddress == bech_of(origin)
+    call MsgServer.CreateValidator requires named: msg == ret(NewMsgCreateValidator, 1, 0) && msg.DelegatorAddress == bech_of(del) && goCtx == ctx_wrap(ctx) && cstate == old(cstate)
+    call Pack requires packs_true: len(args) == 1 && isdyn(args[0], bool) && dyn(args[0], bool)
+    ensures who: result.1 == nil ==> len(args) == 7 && isdyn(args[3], Address) && del == origin
+    ensures refused: len(args) == 7 && isdyn(args[3], Address) && del != origin ==> result.1 != nil && cstate == old(cstate)
+@*/
